@@ -5,7 +5,7 @@ ENTRY = dict(
         title="Cutting gates and reconstructing reproduces the uncut expectation values",
         prop_file="Properties/C01.v",
         corr_files=["Corr/C01Corr.v"],
-        theorems=["c01_all_maps", "c01_support_sum", "c01_multilinear", "c01_c05_vocabulary", "c01_roundtrip", "c01_expansion",
+        theorems=["c01_all_maps", "c01_support_sum", "c01_multilinear", "c01_c05_vocabulary", "c01_roundtrip", "c01_roundtrip_generated", "c01_expansion",
                   "c01_listed_samples", "c01_roundtrip_public", "c01_unseparated", "c01_identity_projection", "c01_subcutoff",
                   "c01_weights_from_c04", "c01_idle_refusal", "c01_idle_rule", "c01_hyps_satisfiable", "c01_ex_roundtrip",
                   "c01_facts"],
